@@ -153,6 +153,20 @@ def discharge(ob, alg, live, budget, tier):
         st, info, solver = solve.z3_check(hyps, goal, timeout_s=first, alg=alg if style == 'canon' else None)
         if st == 'proved':
             return done('proved', 'z3', axioms=info, export=style)
+        if st == 'cex' and len(hyps) != len(ob.hyps):
+            # a model of the relevance-filtered hypotheses is not a model of the path: ask again with all of them
+            hyps = list(ob.hyps)
+            st, info, solver = solve.z3_check(hyps, goal, timeout_s=first, alg=alg if style == 'canon' else None)
+            if st == 'proved':
+                return done('proved', 'z3(all hyps)', axioms=info, export=style)
+        if st == 'cex' and ob.pair is not None:
+            # prefer a counter-model with a clear margin (boundary models do not reproduce under float tolerances)
+            for mg in (1e-3, 1e-5):
+                st3, info3, _ = solve.z3_check(hyps, T.le(abs(ob.pair[0] - ob.pair[1]), mg), timeout_s=first,
+                                               alg=alg if style == 'canon' else None)
+                if st3 == 'cex':
+                    info = info3
+                    break
         if st == 'cex':
             # models of problems without transcendental atoms are exact: confirm with rational arithmetic
             try:
